@@ -33,6 +33,8 @@ def run(ctx):
         'D2 memo == result on miss and hit paths of the memoising lookups',
         'D3 writers of (index, kind) cache entries agree with the reader on the meaning of kind',
         'D4 no caller mutates an index list handed out by the lookup functions',
+ 'D7 in define_group every per-name table (member positions, weight and molar compositions, member objects) is derived from the given IDs / composition '
+        'without an order-changing operation, so position k names the same chemical in all of them',
         'D5 the name table _index is written only by _compile, set_alias (guarded) and define_group',
     ]
     ctx.not_decided = ['that every alias resolves to a single position at run time', 'group arithmetic']
@@ -64,6 +66,8 @@ def run(ctx):
     schema(ctx, d3)
     handed_out(ctx, d4)
     name_table(ctx, d5)
+    d7 = ctx.rule('D7', 'parallel per-name tables (members, compositions) are derived from their inputs without re-ordering', floor=1)
+    parallel_tables(ctx, d7)
     d6 = ctx.rule('D6', 'the per-(phases, chemicals) index cache is refreshed after its inputs change', floor=3)
     from ..generic import index_cache_follows_inputs
     index_cache_follows_inputs(prog, d6)
@@ -379,3 +383,83 @@ def name_table(ctx, d5):
         d5.ok('CompiledChemicals.set_alias', 'an alias already naming another chemical is rejected before the table is written', sa, guard[0])
     else:
         d5.fail('CompiledChemicals.set_alias', 'alias-guard', 'set_alias writes the name table without rejecting an alias already in use', sa, sa.node)
+
+
+ORDER_CHANGING = {'sorted', 'set', 'frozenset', 'reversed', 'np.unique', 'np.sort', 'np.argsort', 'numpy.unique', 'numpy.sort', 'np.flip', 'np.random.permutation'}
+
+
+def parallel_tables(ctx, rule):
+    """define_group stores, under one name, the member positions and the default compositions.  Position k of every table must
+    refer to the same chemical, so each table has to be an element-by-element image of the caller's (IDs, composition) in their
+    given order.  An order-changing operation (sorted, set, reversed, unique, sort, a negative-step slice) anywhere in the
+    derivation of one table mis-pairs members and fractions whenever the caller's order is not the canonical one."""
+    prog = ctx.prog
+    f = prog.method('CompiledChemicals', 'define_group', rel=CH)
+    key = f.params[1]
+    # assignments of locals, in order
+    defs = {}
+    for n in walk_no_nested(f.node):
+        if isinstance(n, ast.Assign) and len(n.targets) == 1 and isinstance(n.targets[0], ast.Name):
+            defs.setdefault(n.targets[0].id, []).append(n.value)
+        if isinstance(n, ast.Expr) and isinstance(n.value, ast.Call) and isinstance(n.value.func, ast.Attribute) and n.value.func.attr in ('sort', 'reverse') \
+                and isinstance(n.value.func.value, ast.Name):
+            defs.setdefault(n.value.func.value.id, []).append(n.value)
+
+    seqs = set(f.params[2:4])       # the parallel inputs: IDs and composition
+
+    def leaves(e, ops, seen):
+        """[(input sequence reached, order-changing operations applied on the way to it)]"""
+        out = []
+        if isinstance(e, ast.Call):
+            fn = src(e.func)
+            here = ops
+            if fn in ORDER_CHANGING or (isinstance(e.func, ast.Attribute) and e.func.attr in ('sort', 'reverse', 'argsort')):
+                here = ops | {fn.split('.')[-1]}
+            for c in list(e.args) + [k.value for k in e.keywords] + ([e.func.value] if isinstance(e.func, ast.Attribute) else []):
+                out += leaves(c, here, seen)
+            return out
+        if isinstance(e, ast.Subscript):
+            here = ops
+            if isinstance(e.slice, ast.Slice) and e.slice.step is not None and src(e.slice.step).startswith('-'):
+                here = ops | {'negative-step slice'}
+            return leaves(e.value, here, seen) + leaves(e.slice, here, seen)
+        if isinstance(e, ast.Name):
+            if e.id in seqs and e.id not in defs:
+                return [(e.id, frozenset(ops))]
+            if e.id in defs and (e.id, frozenset(ops)) not in seen:
+                seen.add((e.id, frozenset(ops)))
+                for d in defs[e.id]:
+                    if isinstance(d, ast.Call) and isinstance(d.func, ast.Attribute) and d.func.attr in ('sort', 'reverse') and src(d.func.value) == e.id:
+                        out += [(q, o | {d.func.attr}) for q, o in leaves(ast.Name(id=e.id + '@', ctx=ast.Load()), ops, seen)]
+                        continue
+                    out += leaves(d, ops, seen)
+                if e.id in seqs:
+                    out.append((e.id, frozenset(ops)))
+                return out
+            return []
+        for c in ast.iter_child_nodes(e):
+            out += leaves(c, ops, seen)
+        return out
+    n = 0
+    sig = {}
+    for node in walk_no_nested(f.node):
+        if isinstance(node, ast.Assign) and len(node.targets) == 1 and isinstance(node.targets[0], ast.Subscript) \
+                and src(node.targets[0].slice) == key and src(node.targets[0].value).startswith('self.'):
+            n += 1
+            tbl = src(node.targets[0].value)
+            for leaf, ops in leaves(node.value, frozenset(), set()):
+                sig.setdefault(ops, []).append((tbl, leaf, node))
+    if len(sig) <= 1:
+        rule.ok('CompiledChemicals.define_group', '%d per-name tables; every path from a table to the given IDs / composition applies the same order-changing operations (%s)'
+                % (n, sorted(next(iter(sig)) if sig else [])), f)
+        for ops, items in sig.items():
+            for tbl in sorted({t for t, _, _ in items}):
+                rule.ok('CompiledChemicals.define_group', '%s[%s] is aligned with the other tables' % (tbl, key), f)
+    else:
+        desc = '; '.join('%s <- %s via %s' % (sorted({t.split('.')[-1] for t, _, _ in items}), sorted({l for _, l, _ in items}), sorted(ops) or 'no re-ordering')
+                         for ops, items in sorted(sig.items(), key=lambda kv: sorted(kv[0])))
+        node = [it[2] for ops, items in sig.items() if ops for it in items][0]
+        rule.fail('CompiledChemicals.define_group', 'tables-misaligned',
+                  'the per-name tables are derived from the caller\'s parallel sequences with different re-orderings (%s): position k no longer refers to the same '
+                  'chemical in all of them' % desc, f, node)
+    ctx.anchor(n >= 3, 'define_group: expected >= 3 per-name tables, found %d' % n)
